@@ -500,3 +500,170 @@ impl Node {
         }
     }
 }
+
+/// What `Node::harvest` found in an own-issued token.
+#[derive(Clone, Debug, Default)]
+pub struct Harvest {
+    /// marks whose disclosure was found by following the digests
+    pub assigned: usize,
+    /// every digest (in an `_sd` list or an array placeholder, at any depth, also inside disclosed
+    /// values) that is the digest of none of the token's disclosures
+    pub decoys: Vec<String>,
+    /// how many of them stand elsewhere than in the top-level `_sd`
+    pub decoys_not_top: usize,
+}
+
+pub fn sha256_b64(s: &str) -> String {
+    use sha2::{Digest, Sha256};
+    crate::real::b64url_encode(&Sha256::digest(s.as_bytes()))
+}
+
+fn placeholder_digest(v: &Value) -> Option<String> {
+    v.as_object().filter(|o| o.len() == 1).and_then(|o| o.get("...")).and_then(|d| d.as_str()).map(|s| s.to_string())
+}
+
+type DiscTable = std::collections::HashMap<String, (usize, Vec<Value>)>;
+
+impl Node {
+    /// Own-issued tokens: decide which disclosure belongs to which marked node by following the
+    /// digests from the payload (a member's disclosure is the one listed in its object's `_sd` that
+    /// names it, an element's the one in its placeholder), and record every other digest as a decoy
+    /// where it stands (`_sd` content of any object, extra array placeholders). Nothing is assumed
+    /// about the order of the disclosures in the token or about where decoys go. This is witness
+    /// search only: the Lean driver recomputes digests, payload and well-formedness from the result,
+    /// and the comparison with the real payload is made on that.
+    pub fn harvest(&mut self, payload: &Value, discs: &[String]) -> Harvest {
+        let mut table: DiscTable = Default::default();
+        for (i, d) in discs.iter().enumerate() {
+            let decoded = crate::real::b64url_decode(d)
+                .and_then(|b| serde_json::from_slice::<Value>(&b).ok())
+                .and_then(|v| v.as_array().cloned())
+                .unwrap_or_default();
+            table.entry(sha256_b64(d)).or_insert((i, decoded));
+        }
+        self.for_each_mark_mut(&mut |m| if let Mark::Marked { disc, .. } = m { *disc = None; });
+        let mut h = Harvest::default();
+        let mut used = std::collections::HashSet::new();
+        self.harvest_in(payload, discs, &table, &mut used, &mut h, true);
+        h
+    }
+
+    fn harvest_in(&mut self, real: &Value, discs: &[String], table: &DiscTable, used: &mut std::collections::HashSet<usize>, h: &mut Harvest, top: bool) {
+        match self {
+            Node::Leaf(_) => {}
+            Node::Obj(ms, extra) => {
+                let obj = match real.as_object() { Some(o) => o, None => return };
+                let sd: Vec<String> = obj.get("_sd").and_then(|v| v.as_array())
+                    .map(|a| a.iter().filter_map(|x| x.as_str().map(|s| s.to_string())).collect()).unwrap_or_default();
+                let mut taken: Vec<String> = Vec::new();
+                for m in ms.iter_mut() {
+                    match &mut m.mark {
+                        Mark::Marked { disc, .. } => {
+                            let hit = sd.iter().find(|g| !taken.contains(*g) && table.get(*g)
+                                .map_or(false, |(i, a)| !used.contains(i) && a.len() == 3 && a[1].as_str() == Some(m.key.as_str()))).cloned();
+                            if let Some(g) = hit {
+                                let (i, a) = &table[&g];
+                                used.insert(*i);
+                                taken.push(g.clone());
+                                *disc = Some(discs[*i].clone());
+                                h.assigned += 1;
+                                m.node.harvest_in(&a[2], discs, table, used, h, false);
+                            }
+                        }
+                        _ => {
+                            if let Some(v) = obj.get(&m.key) { m.node.harvest_in(v, discs, table, used, h, false); }
+                        }
+                    }
+                }
+                let rest: Vec<String> = sd.iter().filter(|g| !taken.contains(*g)).cloned().collect();
+                for g in &rest {
+                    if !table.contains_key(g) {
+                        h.decoys.push(g.clone());
+                        if !top { h.decoys_not_top += 1; }
+                    }
+                }
+                extra.decoys = rest;
+                extra.rot = 0;
+                extra.emptysd = obj.get("_sd").and_then(|v| v.as_array()).map_or(false, |a| a.is_empty());
+            }
+            Node::Arr(xs) => {
+                let arr = match real.as_array() { Some(a) => a, None => return };
+                let mut pending: std::collections::VecDeque<Elem> = std::mem::take(xs).into_iter().filter(|e| !matches!(e.mark, Mark::Decoy(_))).collect();
+                let mut out: Vec<Elem> = Vec::new();
+                for (ri, rv) in arr.iter().enumerate() {
+                    let surplus = arr.len() - ri > pending.len();
+                    let unknown = placeholder_digest(rv).filter(|g| !table.contains_key(g));
+                    // an extra placeholder with a digest of no disclosure: a decoy element
+                    let as_decoy = match (&unknown, pending.front()) {
+                        (Some(_), None) => true,
+                        (Some(_), Some(e)) => surplus && (!matches!(e.mark, Mark::Clear) || &e.node.plain() != rv),
+                        _ => false,
+                    };
+                    if as_decoy {
+                        let g = unknown.unwrap();
+                        h.decoys.push(g.clone());
+                        h.decoys_not_top += 1;
+                        out.push(Elem { mark: Mark::Decoy(g), node: Node::Leaf(Value::Null) });
+                        continue;
+                    }
+                    let mut e = match pending.pop_front() { Some(e) => e, None => continue };
+                    match &mut e.mark {
+                        Mark::Marked { disc, .. } => {
+                            let hit = placeholder_digest(rv).filter(|g| table.get(g).map_or(false, |(i, a)| !used.contains(i) && a.len() == 2));
+                            if let Some(g) = hit {
+                                let (i, a) = &table[&g];
+                                used.insert(*i);
+                                *disc = Some(discs[*i].clone());
+                                h.assigned += 1;
+                                e.node.harvest_in(&a[1], discs, table, used, h, false);
+                            }
+                        }
+                        _ => e.node.harvest_in(rv, discs, table, used, h, false),
+                    }
+                    out.push(e);
+                }
+                out.extend(pending);
+                *xs = out;
+            }
+        }
+    }
+
+    pub fn disc_of_mark(&mut self, target: usize) -> Option<String> {
+        let mut r = None;
+        self.for_each_mark_mut(&mut |m| if let Mark::Marked { id, disc: Some(d), .. } = m { if *id == target { r = Some(d.clone()); } });
+        r
+    }
+
+    /// ids of the marked nodes that have no disclosure string yet
+    pub fn unassigned(&mut self) -> Vec<usize> {
+        let mut v = Vec::new();
+        self.for_each_mark_mut(&mut |m| if let Mark::Marked { id, disc: None, .. } = m { v.push(*id); });
+        v
+    }
+}
+
+/// `(payload, disclosure values)` with every digest in `decoys` taken out of `_sd` lists and array
+/// placeholders (an empty `_sd` list goes too): what two payloads that differ only in where
+/// their decoys stand have in common
+pub fn strip_decoys(v: &Value, decoys: &[String]) -> Value {
+    match v {
+        Value::Object(m) => {
+            let mut out = Map::new();
+            for (k, x) in m {
+                if k == "_sd" {
+                    if let Value::Array(a) = x {
+                        let kept: Vec<Value> = a.iter().filter(|d| d.as_str().map_or(true, |s| !decoys.iter().any(|g| g == s))).cloned().collect();
+                        if !kept.is_empty() { out.insert(k.clone(), Value::Array(kept)); }
+                        continue;
+                    }
+                }
+                out.insert(k.clone(), strip_decoys(x, decoys));
+            }
+            Value::Object(out)
+        }
+        Value::Array(a) => Value::Array(a.iter()
+            .filter(|x| placeholder_digest(x).map_or(true, |g| !decoys.contains(&g)))
+            .map(|x| strip_decoys(x, decoys)).collect()),
+        _ => v.clone(),
+    }
+}
